@@ -204,6 +204,17 @@ def jobRv (j : Json) : Except String Json := do
     | k => throw s!"bad rv kind {k}"
   return Json.mkObj [("draws", Json.arr outs)]
 
+/-- `Rule.py_execute_rule` / `py_execute_volume_rule` on explicit vectors. -/
+def jobRule (j : Json) : Except String Json := do
+  let r ← decRule (α := α) (← j.getObjVal? "rule")
+  let x ← getNumList (α := α) j "x"
+  let p ← getNumList (α := α) j "p"
+  let vol : α ← getNum j "vol"
+  let t : α ← getNum j "t"
+  let dt : α ← getNum j "dt"
+  let (x', p') := r.execute x p vol t dt (getBoolD j "rs" true)
+  return Json.mkObj [("x", encList x'), ("p", encList p')]
+
 def dispatch (op : String) (j : Json) : Except String Json :=
   match op with
   | "prop" => jobProp (α := α) j
@@ -212,6 +223,7 @@ def dispatch (op : String) (j : Json) : Except String Json :=
   | "dq" => jobDQ (α := α) j
   | "sim" => jobSim (α := α) j
   | "rv" => jobRv (α := α) j
+  | "rule" => jobRule (α := α) j
   | _ => throw s!"unknown op {op}"
 end
 
